@@ -41,7 +41,8 @@ def gen_knobs(rng, prop, profile):
     res_names = ["r%d" % i for i in range(nres)]
     if rng.random() < 0.15:
         # unusual but legal object names (query strings, ports-like colons, nested paths, spaces, '=' and ';')
-        odd = ["r0?x=1&y=2", "a/b/r%d", "r%d v2", "k=v;r%d", "r%d:8080", "r\u00e9sum\u00e9%d"]
+        odd = ["r0?x=1&y=2", "a/b/r%d", "r%d v2", "k=v;r%d", "r%d:8080", "r\u00e9sum\u00e9%d", "api/obs?station=%d",
+               "api/obs?station=%d"]
         for i in range(nres):
             if rng.random() < 0.4:
                 t = rng.choice(odd)
@@ -121,6 +122,7 @@ def gen_knobs(rng, prop, profile):
         "evict_on_startup": rng.random() < 0.15,
         "val_style": wchoice(rng, [(60, "bool"), (20, "numpy"), (20, "int")]),
         "relative_path": rng.random() < 0.12,
+        "fd_limit": 48 if rng.random() < 0.3 else None,  # a small descriptor limit exposes descriptor leaks
         "second_cache": second,  # (module-level API only) a second named cache in the same process
         "other_max": 10**9,
         "tmp_other_device": rng.random() < 0.5,  # is the system temp directory on another file system?
